@@ -1,6 +1,14 @@
 import Foundation.Basic.Search
+import Foundation.Basic.Store
 open GoSort
 
+/-!
+Model of `core/nonce.go`: `setNonce` transcribed literally (including Go's `sort.Search`
+bisections), the per-sender store of `checkNonce`, and the executable spec state.
+Nonces are `Nat`: every stored or accepted value passed the 13-digit test, so it is `< 10^13` and
+the `uint64` subtractions `last - x` of the Go code are only evaluated where they cannot wrap
+(`nonce > last` is tested first; the window is sorted) — see `window_inv` in Proofs/C02.
+-/
 namespace Nonce
 
 inductive Err | format | old | dup deriving Repr, DecidableEq
@@ -23,52 +31,31 @@ def setNonce (ttl nonce : Nat) (last : List Nat) : Except Err (List Nat) :=
       if idx ≠ last.length ∧ last.getD idx 0 = nonce then .error .dup
       else .ok (last.take idx ++ [nonce] ++ last.drop idx)
 
-/-- Sorted strictly increasing -/
-abbrev Sorted (l : List Nat) : Prop := List.Pairwise (· < ·) l
+/-- window `W` (what is stored) together with the ghost history `acc` of accepted nonces -/
+abbrev PS := List Nat × List Nat
 
-theorem getD_eq {l : List Nat} {i : Nat} (h : i < l.length) : l.getD i 0 = l[i] := by
-  simp [List.getD_eq_getElem?_getD, h]
+/-- one `checkNonce` for one sender: new state and whether the nonce was accepted -/
+def stepSt (ttl : Nat) (s : PS) (n : Nat) : PS × Bool :=
+  match setNonce ttl n s.1 with
+  | .ok W' => ((W', s.2 ++ [n]), true)
+  | .error _ => (s, false)
 
-theorem sorted_getD_lt {l : List Nat} (h : Sorted l) {i j : Nat} (hij : i < j) (hj : j < l.length) :
-    l.getD i 0 < l.getD j 0 := by
-  have hi : i < l.length := by omega
-  rw [getD_eq hi, getD_eq hj]
-  exact List.pairwise_iff_getElem.mp h i j hi hj hij
+def runSt (ttl : Nat) (ns : List Nat) : PS := ns.foldl (fun s n => (stepSt ttl s n).1) ([], [])
 
-theorem sorted_getD_le {l : List Nat} (h : Sorted l) {i j : Nat} (hij : i ≤ j) (hj : j < l.length) :
-    l.getD i 0 ≤ l.getD j 0 := by
-  rcases Nat.lt_or_eq_of_le hij with h1 | h1
-  · exact Nat.le_of_lt (sorted_getD_lt h h1 hj)
-  · subst h1; exact Nat.le_refl _
+/-- the batch-level store: one window per sender address (one composite key per sender) -/
+abbrev Store := String → PS
 
-theorem mem_drop_iff {l : List Nat} {k a : Nat} :
-    a ∈ l.drop k ↔ ∃ i, k ≤ i ∧ i < l.length ∧ l.getD i 0 = a := by
-  constructor
-  · intro h
-    obtain ⟨i, hi, rfl⟩ := List.mem_iff_getElem.mp h
-    simp at hi
-    refine ⟨k + i, by omega, by omega, ?_⟩
-    rw [getD_eq (by omega)]
-    simp
-  · rintro ⟨i, hki, hil, rfl⟩
-    rw [getD_eq hil]
-    apply List.mem_iff_getElem.mpr
-    refine ⟨i - k, by simp; omega, ?_⟩
-    simp
-    congr 1; omega
+def stepMulti (ttl : Nat) (st : Store) (e : String × Nat) : Store :=
+  Foundation.upd st e.1 (stepSt ttl (st e.1) e.2).1
 
-theorem mem_take_iff {l : List Nat} {k a : Nat} :
-    a ∈ l.take k ↔ ∃ i, i < k ∧ i < l.length ∧ l.getD i 0 = a := by
-  constructor
-  · intro h
-    obtain ⟨i, hi, rfl⟩ := List.mem_iff_getElem.mp h
-    simp at hi
-    refine ⟨i, by omega, by omega, ?_⟩
-    rw [getD_eq (by omega)]
-    simp
-  · rintro ⟨i, hki, hil, rfl⟩
-    rw [getD_eq hil]
-    apply List.mem_iff_getElem.mpr
-    exact ⟨i, by simp; omega, by simp⟩
+def runMulti (ttl : Nat) (h : List (String × Nat)) : Store := h.foldl (stepMulti ttl) (fun _ => ([], []))
+
+/-- Spec: accepted iff well-formed, never accepted before, and not older than any accepted nonce
+    by more than the TTL. -/
+def Accepts (ttl : Nat) (acc : List Nat) (n : Nat) : Prop :=
+  is13 n = true ∧ n ∉ acc ∧ ∀ m ∈ acc, m ≤ n + ttl
+
+instance (ttl : Nat) (acc : List Nat) (n : Nat) : Decidable (Accepts ttl acc n) := by
+  unfold Accepts; infer_instance
 
 end Nonce
